@@ -185,24 +185,23 @@ class Stream(object):
 
         Coroutine.
         '''
-        if is_no_body(request, response):
-            return
+        if not is_no_body(request, response):
+            if not raw:
+                self._setup_decompressor(response)
 
-        if not raw:
-            self._setup_decompressor(response)
+            read_strategy = self.get_read_strategy(response)
 
-        read_strategy = self.get_read_strategy(response)
+            if self._ignore_length and read_strategy == 'length':
+                read_strategy = 'close'
 
-        if self._ignore_length and read_strategy == 'length':
-            read_strategy = 'close'
+            if read_strategy == 'chunked':
+                yield from self._read_body_by_chunk(response, file, raw=raw)
+            elif read_strategy == 'length':
+                yield from self._read_body_by_length(response, file)
+            else:
+                yield from self._read_body_until_close(response, file)
 
-        if read_strategy == 'chunked':
-            yield from self._read_body_by_chunk(response, file, raw=raw)
-        elif read_strategy == 'length':
-            yield from self._read_body_by_length(response, file)
-        else:
-            yield from self._read_body_until_close(response, file)
-
+        # Also when there is no body: a 204 may say "Connection: close"
         should_close = wpull.protocol.http.util.should_close(
             request.version, response.fields.get('Connection'))
 
